@@ -17,7 +17,20 @@ def sqrt_beta(D, fc):
     return math.sqrt(0.2 * 2 * math.log(D * t ** 2 * math.pi ** 2 / (6 * 0.1)))
 
 
+def he_specs(ctx):
+    from .. import gen
+    rng = ctx.sub_rng("c15he")
+    specs = []
+    for _ in range(5 if ctx.quick else 40):
+        sp = gen.make_spec(rng, D=rng.choice([1, 1, 2]), mode="he", geom=rng.choice(["box", "tight", "logbox"]), cons=None, opt_loc="inside", target=rng.choice(["quad", "abs"]))
+        sp["options"] = {"n_search": 32, "max_fun_evals": rng.choice([90, 120]), "noise_final_samples": rng.choice([0, 3])}
+        specs.append(sp)
+    return specs
+
+
 def checks(ctx, rep):
+    if getattr(ctx, "_c15_extra", True) and not getattr(ctx, "_replaying", False):
+        runlevel.with_extra(ctx, "c15he", lambda: he_specs(ctx))
     traces = runlevel.get_pool(ctx)
     reqs, owners = [], []
     stats = {"runs": 0, "neigh": 0, "gpadd": 0, "acq": 0, "neigh_truncated": 0, "noise_sets": 0, "repeated_point_logs": 0, "per_coord_len_scale": 0,
@@ -98,6 +111,14 @@ def checks(ctx, rep):
                     want = e["sd_new"] ** 2
                     if not (abs(e["last_s2"] - want) <= 1e-12 * max(1.0, abs(want))):
                         viol("noise_as_variance", SITE_A, f"appended noise entry {e['last_s2']} is not the reported SD squared ({e['sd_new']}^2 = {want})")
+                if merged and e["specify"]:
+                    # the observation was merged into an existing record: the log now holds ONE record (x, merged Y, merged S) for this point,
+                    # the GP gets a second row for x whose noise entry is the single observation's
+                    if "merged_add" not in reported:
+                        reported.add("merged_add")
+                        rep.violation("merged_add_is_log_row", SITE_A, "after a repeated observation was merged into its record under specified noise, the posterior update appends a second training row "
+                                      f"for the same point (noise {e['last_s2']}) instead of conditioning on the merged record; the stale pre-merge row stays until the next local refit; {tag}",
+                                      dict(case, tags={"merged_add": True}))
             elif k == "ACQ":
                 stats["acq"] += 1
                 if e["sqrt_beta_arg"] not in (None, "None"):
@@ -146,6 +167,7 @@ def replay(ctx, data):
     rep = Report()
     from .. import tracer
     ctx._pool = [tracer.run_traced(data["case"]["spec"])]
+    ctx._replaying = True
     checks(ctx, rep)
     return rep
 
